@@ -37,6 +37,8 @@ def make_item(seed, k, variant=None):
     if variant is not None:
         opt, cfg = variant[0], dict(variant[1], max_cycles=rng.choice([2, 3, 5]), fitness_error=None)
     kind = rng.choice(["continuous", "continuous", "multiobjective", "mixed", "discrete", "permutation"])
+    if variant is not None and (k // 1000) % 2 == 0:
+        kind = "continuous"
     spec = universe.make_spec(rng, kind=kind, minmax="max")
     # a third of the pairs run both directions on ONE instance (max f, then min -f): equivalent for a library whose
     # runs do not depend on instance history, and reaches direction state cached on the instance
@@ -140,7 +142,7 @@ def check(prop, tier, seed):
     rep = Report(prop, tier, seed)
     per_opt = 3 if tier == "quick" else 30
     items = [make_item(seed, k) for k in range(84 * per_opt)]
-    for rep_ in range(1 if tier == "quick" else 6):
+    for rep_ in range(2 if tier == "quick" else 8):
         items += [make_item(seed, 100000 + 1000 * rep_ + j, variant=v) for j, v in enumerate(universe.all_optional_variants())]
     res = runner.run_parallel("pvmon.props.c12", "work", items, {})
     opts_seen = set()
